@@ -897,11 +897,19 @@ func grpcPercentEncode(bufferPool *bufferPool, msg string) string {
 	for i := 0; i < len(msg); i++ {
 		// Characters that need to be escaped are defined in gRPC's HTTP/2 spec.
 		// They're different from the generic set defined in RFC 3986.
-		if c := msg[i]; c < ' ' || c > '~' || c == '%' {
+		if c := msg[i]; c < ' ' || c > '~' || c == '%' || grpcIsEdgeSpace(msg, i) {
 			return grpcPercentEncodeSlow(bufferPool, msg, i)
 		}
 	}
 	return msg
+}
+
+// grpcIsEdgeSpace reports whether msg[i] is a space at either end of msg. A
+// header field value has no leading or trailing whitespace - HTTP stacks strip
+// it (net/http does, on HTTP/1.1) or refuse the message (RFC 9113 8.2.1) - so
+// a space there only survives escaped.
+func grpcIsEdgeSpace(msg string, i int) bool {
+	return msg[i] == ' ' && (i == 0 || i == len(msg)-1)
 }
 
 // msg needs some percent-escaping. Bytes before offset don't require
@@ -912,7 +920,7 @@ func grpcPercentEncodeSlow(bufferPool *bufferPool, msg string, offset int) strin
 	out.WriteString(msg[:offset])
 	for i := offset; i < len(msg); i++ {
 		c := msg[i]
-		if c < ' ' || c > '~' || c == '%' {
+		if c < ' ' || c > '~' || c == '%' || grpcIsEdgeSpace(msg, i) {
 			out.WriteString(fmt.Sprintf("%%%02X", c))
 			continue
 		}
